@@ -73,6 +73,10 @@ type NHsv<T> = Hsv<palette::encoding::Srgb, T>;
 type NHwb<T> = Hwb<palette::encoding::Srgb, T>;
 type NLinLuma<T> = palette::luma::LinLuma<D65, T>;
 type NSrgbLuma<T> = palette::luma::SrgbLuma<T>;
+// outside the XYZ conversion group, with the same operator macros
+type NJab<T> = palette::cam16::Cam16UcsJab<T>;
+type NJmh<T> = palette::cam16::Cam16UcsJmh<T>;
+type NLms<T> = palette::lms::VonKriesLms<D65, T>;
 
 macro_rules! node {
     ($T:ty, $ty:ty, $name:expr, $n:expr, |$v:ident| $new:expr, |$s:ident| [$($g:expr),*], lo [$($lo:expr),*], hi [$($hi:expr),*]) => {
@@ -143,6 +147,13 @@ macro_rules! all_nodes {
               lo [Some(<NLinLuma<$T>>::min_luma()), None, None], hi [Some(<NLinLuma<$T>>::max_luma()), None, None]);
         node!($T, NSrgbLuma<$T>, "srgbluma", 1, |v| palette::luma::Luma::new(v[0]), |s| [s.luma, 0.0, 0.0],
               lo [Some(<NSrgbLuma<$T>>::min_luma()), None, None], hi [Some(<NSrgbLuma<$T>>::max_luma()), None, None]);
+        node!($T, NJab<$T>, "cam16ucsjab", 3, |v| palette::cam16::Cam16UcsJab::new(v[0], v[1], v[2]), |s| [s.lightness, s.a, s.b],
+              lo [Some(<NJab<$T>>::min_lightness()), None, None], hi [Some(<NJab<$T>>::max_lightness()), None, None]);
+        node!($T, NJmh<$T>, "cam16ucsjmh", 3, |v| palette::cam16::Cam16UcsJmh::new(v[0], v[1], v[2]), |s| [s.lightness, s.colorfulness, s.hue.into_inner()],
+              lo [Some(<NJmh<$T>>::min_lightness()), Some(<NJmh<$T>>::min_colorfulness()), None],
+              hi [Some(<NJmh<$T>>::max_lightness()), Some(<NJmh<$T>>::max_srgb_colorfulness()), None]);
+        node!($T, NLms<$T>, "lmsvk", 3, |v| palette::lms::Lms::new(v[0], v[1], v[2]), |s| [s.long, s.medium, s.short],
+              lo [Some(<NLms<$T>>::min_long()), Some(<NLms<$T>>::min_medium()), Some(<NLms<$T>>::min_short())], hi [None, None, None]);
     };
 }
 all_nodes!(f32);
@@ -453,6 +464,15 @@ macro_rules! lin_ops { ($T:ty, $C:ty) => { vec![
     opx!("Mul", "mul", Pair, run_mul_pre, $T, $C), opx!("Mul", "mul_scalar", Scalar, run_mul_s_pre, $T, $C),
     opx!("Div", "div", Pair, run_div_pre, $T, $C), opx!("Div", "div_scalar", Scalar, run_div_s_pre, $T, $C),
 ] }; }
+// the same without Lighten (Lms)
+macro_rules! lms_ops { ($T:ty, $C:ty) => { vec![
+    opx!("Mix", "mix", Mix, run_mix_pre, $T, $C),
+    opx!("Clamp", "clamp", Unary, run_clamp, $T, $C),
+    opx!("Add", "add", Pair, run_add_pre, $T, $C), opx!("Add", "add_scalar", Scalar, run_add_s_pre, $T, $C),
+    opx!("Sub", "sub", Pair, run_sub_pre, $T, $C), opx!("Sub", "sub_scalar", Scalar, run_sub_s_pre, $T, $C),
+    opx!("Mul", "mul", Pair, run_mul_pre, $T, $C), opx!("Mul", "mul_scalar", Scalar, run_mul_s_pre, $T, $C),
+    opx!("Div", "div", Pair, run_div_pre, $T, $C), opx!("Div", "div_scalar", Scalar, run_div_s_pre, $T, $C),
+] }; }
 // impl_lab_color_schemes: Complementary and Tetradic without a hue
 macro_rules! lab_ops { ($T:ty, $C:ty) => { vec![
     opx!("Complementary", "complementary", Unary, run_complementary, $T, $C), opx!("Tetradic", "tetradic", Unary, run_tetradic, $T, $C),
@@ -490,6 +510,7 @@ macro_rules! table {
         entry!($T, NLinSrgb<$T>, [lin_ops]), entry!($T, NSrgb<$T>, [lin_ops]), entry!($T, NHsl<$T>, [cyl_ops, sat_ops]),
         entry!($T, NHsv<$T>, [cyl_ops, sat_ops]), entry!($T, NHwb<$T>, [cyl_ops]), entry!($T, NLinLuma<$T>, [lin_ops]),
         entry!($T, NSrgbLuma<$T>, [lin_ops]),
+        entry!($T, NJab<$T>, [lin_ops, lab_ops]), entry!($T, NJmh<$T>, [cyl_ops, sat_ops]), entry!($T, NLms<$T>, [lms_ops]),
     ] };
 }
 
@@ -567,7 +588,7 @@ fn reset(cx: &mut Cx) { cx.rec.ev(json!({"ev": "reset"})); }
 
 fn hue_index(name: &str) -> Option<usize> {
     match name {
-        "lch" | "lchuv" | "oklch" => Some(2),
+        "lch" | "lchuv" | "oklch" | "cam16ucsjmh" => Some(2),
         "hsluv" | "okhsl" | "okhsv" | "okhwb" | "hsl" | "hsv" | "hwb" => Some(0),
         _ => None,
     }
